@@ -113,6 +113,23 @@ def hidden_state(*owners):
         for k, v in sorted(vars(o).items()):
             if k.startswith("__"):
                 continue
+            f = v.__func__ if isinstance(v, (staticmethod, classmethod)) else v
+            if isinstance(f, types.FunctionType):
+                # data a function carries with it: default argument objects, function attributes, closure cells
+                cells = []
+                for c in f.__closure__ or ():
+                    try:
+                        cv = c.cell_contents
+                    except ValueError:
+                        continue
+                    if not callable(cv) and not isinstance(cv, (type, types.ModuleType)):
+                        cells.append(cv)
+                carried = (f.__defaults__, f.__kwdefaults__, {a: b for a, b in f.__dict__.items() if not callable(b)}, cells)
+                try:
+                    items[f"{getattr(o, '__name__', o)}.{k}()"] = _canon.digest(carried)
+                except Exception:  # noqa: BLE001
+                    pass
+                continue
             if isinstance(v, (staticmethod, classmethod, property, type, types.ModuleType, types.FunctionType, types.BuiltinFunctionType)) or callable(v):
                 continue
             try:
@@ -152,7 +169,7 @@ def long_history(s, owners, thunks, always, deadline_s=240.0, n=LONG_N):
                     s.violation(f"long_history:result_changes_with_call_count:{lab}", {"call": lab, "calls_before": 1})
             except Exception as e:  # noqa: BLE001
                 s.violation(f"long_history:exception_after_earlier_calls:{lab}:" + exc_sig(e), {"call": lab, "calls_before": 1}, repr(e))
-            s.case(nontrivial=True, calls=1, outcome="short")
+            s.case(nontrivial=True, calls=1, outcome="short", sample={"call": lab, "calls_before": 1} if len(s.samples) < 1 else None)
     after = hidden_state(*owners)
     changed = sorted(k for k in set(before) | set(after) if before.get(k) != after.get(k))
     s.extra["class_or_module_data_changed_by_a_call"] = changed
@@ -160,26 +177,97 @@ def long_history(s, owners, thunks, always, deadline_s=240.0, n=LONG_N):
     s.extra["long_history_calls_per_entry_point"] = n if deep else 3
     if not deep:
         return
-    capped = False
-    for lab, f in thunks:
-        bad = False
+    from . import par
+    from .report import Acc
+
+    def deep(idx):
+        # one forked child per entry point: its own process history, all entry points in parallel
+        lab, f = thunks[idx]
+        acc = Acc()
+        cap = None
         for i in range(3, n):
+            bad = False
             try:
                 r = f()
                 if r != want[lab]:
-                    s.violation(f"long_history:result_changes_with_call_count:{lab}", {"call": lab, "calls_before": i},
-                                f"call number {i + 1} of {lab} in one process returns something else than the first call on the same input")
+                    acc.violation(f"long_history:result_changes_with_call_count:{lab}", {"call": lab, "calls_before": i},
+                                  f"call number {i + 1} of {lab} in one process returns something else than the first call on the same input")
                     bad = True
             except Exception as e:  # noqa: BLE001
-                s.violation(f"long_history:exception_after_earlier_calls:{lab}:" + exc_sig(e), {"call": lab, "calls_before": i},
-                            f"call number {i + 1} of {lab} in one process raises on valid input: {e!r}")
+                acc.violation(f"long_history:exception_after_earlier_calls:{lab}:" + exc_sig(e), {"call": lab, "calls_before": i},
+                              f"call number {i + 1} of {lab} in one process raises on valid input: {e!r}")
                 bad = True
-            s.case(nontrivial=(i & (i - 1)) == 0 or (i & 0xFF) in (0, 0xFF), calls=1, outcome=("pow2" if (i & (i - 1)) == 0 else "long"))
+            acc.case(nontrivial=(i & (i - 1)) == 0 or (i & 0xFF) in (0, 0xFF), calls=1, outcome=("pow2" if (i & (i - 1)) == 0 else "long"))
             if bad:
                 break
             if (i & 0x3FF) == 0 and time.perf_counter() - t0 > deadline_s:
-                capped = True
-                s.extra.setdefault("long_history_capped_at", {})[lab] = i
+                cap = i
                 break
-    if capped:
-        s.exhaustive = False
+        return acc, lab, cap
+
+    for acc, lab, cap in par.pmap(deep, list(range(len(thunks))), len(thunks)):
+        s.merge(acc)
+        if cap is not None:
+            s.extra.setdefault("long_history_capped_at", {})[lab] = cap
+            s.exhaustive = False
+
+
+def poisoned_histories(s, funcs, bad_args, probes, nchildren=4):
+    """Histories of length 2 whose first call is *outside* the documented domain.
+
+    funcs: {name: callable}; bad_args: [(label, maker)]; probes: [(label, thunk)] -- thunks are valid calls returning a comparable
+    observation.  Whatever the out-of-range call does (return, raise) is accepted; every probe run afterwards must give what it
+    gave before any such call.  Runs in forked children (so nothing leaks into the rest of the run); a child stops at its first
+    failing case because everything after it would blame the wrong call."""
+    from . import par
+    from .report import Acc, exc_sig
+
+    want = []
+    for lab, th in probes:
+        want.append(th())
+    names = list(funcs)
+
+    def work(fns):
+        acc = Acc()
+        for fn in fns:
+            for lab, mk in bad_args:
+                case = {"first_call": f"{fn}({lab})"}
+                outcome = "returned"
+                try:
+                    funcs[fn](mk())
+                except Exception as e:  # noqa: BLE001
+                    outcome = type(e).__name__
+                for (plab, th), w in zip(probes, want):
+                    try:
+                        if th() != w:
+                            acc.violation(f"valid_call_differs_after_out_of_range_call:{plab}", case,
+                                          f"{plab} gives another result after {case['first_call']}")
+                    except Exception as e:  # noqa: BLE001
+                        acc.violation(f"valid_call_raises_after_out_of_range_call:{plab}:" + exc_sig(e), case,
+                                      f"{plab} raises after {case['first_call']}: {e!r}")
+                acc.case(nontrivial=True, calls=1 + len(probes), outcome=outcome, sample=case if len(acc.samples) < 2 else None)
+                if acc.viol:
+                    return acc
+        return acc
+
+    for acc in par.pmap(work, par.split_list(names, nchildren), nchildren):
+        s.merge(acc)
+    if not s.viol:
+        s.declared = len(names) * len(bad_args)
+
+
+def bit_containers(bits01):
+    """the same bit string in the containers a caller may hold it in (plain big-endian bitarray excluded): yields (kind, object,
+    keepalive)"""
+    from bitarray import frozenbitarray
+
+    plain = bitarray(bits01)
+    yield "frozenbitarray", frozenbitarray(plain), None
+    x = bitarray(bits01)
+    yield "bitarray_with_exported_buffer", x, memoryview(x)
+    if len(plain) % 8 == 0:
+        yield "bitarray_over_readonly_buffer", bitarray(buffer=plain.tobytes()), None
+        yield "bitarray_over_writable_buffer", bitarray(buffer=bytearray(plain.tobytes())), None
+    else:
+        pad = (-len(plain)) % 8
+        yield "slice_of_bitarray_over_readonly_buffer", bitarray(buffer=(plain + bitarray("0" * pad)).tobytes())[: len(plain)], None
